@@ -115,8 +115,8 @@ func cvSegments(s types.Segments) string {
 
 type tyInfo struct {
 	coq   string
-	fresh func() any            // pointer to a fresh zero value
-	canon func(p any) string    // cv of *p
+	fresh func() any         // pointer to a fresh zero value
+	canon func(p any) string // cv of *p
 }
 
 func tyTable() map[string]tyInfo {
